@@ -247,9 +247,31 @@ def _binds_caller_from_context(fn):
 
 
 class _Py:
-    def __init__(self, anon_map):
+    def __init__(self, anon_map, params=None):
         self.anon = anon_map     # line -> block id
         self.fn = [{}]           # flags of the function being translated (innermost last)
+        self.params = params or {}   # top-level def name -> parameter names (keyword arguments of <%ns:def>)
+
+    def call_args(self, name, n):
+        """positional argument list of a call; keyword arguments (`<%self:d3 v1="..">`) are put at the positions
+        of the def's parameter list"""
+        args = [self.expr(a) for a in n.args]
+        if n.keywords:
+            ps = self.params.get(name)
+            if ps is None:
+                raise CanonError("keyword arguments for unknown def " + name)
+            kw = {}
+            for k in n.keywords:
+                if k.arg is None or k.arg in kw:
+                    raise CanonError("keyword argument " + _src(n))
+                kw[k.arg] = self.expr(k.value)
+            for p in ps[len(args):]:
+                if p not in kw:
+                    raise CanonError("missing argument %s in %s" % (p, _src(n)))
+                args.append(kw.pop(p))
+            if kw:
+                raise CanonError("unexpected keyword in " + _src(n))
+        return args
 
     def expr(self, n):
         if isinstance(n, ast.Constant) and isinstance(n.value, str):
@@ -278,7 +300,12 @@ class _Py:
             if m:
                 return ["filt", int(m.group(1)), self.expr(n.args[0])]
             if fs == "capture":
-                return ["capture", _name_id(_src(n.args[0]), self.anon), [self.expr(a) for a in n.args[1:]]]
+                cn = re.sub(r"^(self|local)\.", "", _src(n.args[0]))
+                return ["capture", _name_id(cn, self.anon), [self.expr(a) for a in n.args[1:]]]
+            m = re.fullmatch(r"(?:self|local)\.(d\d+)", fs)
+            if m:
+                # a top-level def of the same template through its namespace: the same call
+                return ["call", _name_id(m.group(1), self.anon), self.call_args(m.group(1), n)]
             m = re.fullmatch(r"caller\.(\w+)", fs)
             if m:
                 return ["caller", _name_id(m.group(1), self.anon), [self.expr(a) for a in n.args]]
@@ -292,7 +319,7 @@ class _Py:
                 args = [a for a in call.args if _src(a) != "context"]
                 return ["call", INNER + _name_id(m.group(1), self.anon), [self.expr(a) for a in args]]
             if isinstance(f, ast.Name):
-                return ["call", _name_id(f.id, self.anon), [self.expr(a) for a in n.args]]
+                return ["call", _name_id(f.id, self.anon), self.call_args(f.id, n)]
             m = re.fullmatch(r"context\['self'\]\.(\w+)", fs)
             if m:
                 return ["call", _name_id(m.group(1), self.anon), []]
@@ -449,7 +476,11 @@ class _Py:
 def from_python(code, anon_lines):
     """anon_lines: {block id: line}"""
     tree = ast.parse(code)
-    py = _Py({line: bid for bid, line in anon_lines.items()})
+    params = {}
+    for s in tree.body:
+        if isinstance(s, ast.FunctionDef) and s.name.startswith("render_"):
+            params[s.name[7:]] = [a.arg for a in s.args.args if a.arg != "context"]
+    py = _Py({line: bid for bid, line in anon_lines.items()}, params)
     out = []
     body = tree.body
     i = 0
